@@ -1075,7 +1075,20 @@ func init() {
 						return true
 					}
 					v, okv := fi.varOf(as.Lhs[0]), fi.varOf(as.Lhs[1])
-					if v == nil || okv == nil || len(fi.defs[v]) != 1 || len(fi.defs[okv]) != 1 {
+					if v == nil || okv == nil || len(fi.defs[v]) != 1 {
+						return true
+					}
+					// `ok` may be reused by later assertions: a test of it speaks about this assertion only
+					// while no other definition of it lies between the assertion and the test
+					aboutThis := func(at ast.Node) bool {
+						if at == nil || startOf(at) < startOf(as) {
+							return false
+						}
+						for _, d := range fi.defs[okv] {
+							if d.node != nil && d.node != ast.Node(as) && fi.within(d.node, fi.Decl) && startOf(d.node) > startOf(as) && startOf(d.node) < startOf(at) {
+								return false
+							}
+						}
 						return true
 					}
 					switch v.Type().Underlying().(type) {
@@ -1107,7 +1120,7 @@ func init() {
 						n++
 						good := false
 						for _, g := range fi.guardsWithShortCircuit(m) {
-							if g.Kind == "bool" && fi.varOf(g.Expr) == okv && !g.Neg {
+							if g.Kind == "bool" && fi.varOf(g.Expr) == okv && !g.Neg && (len(fi.defs[okv]) == 1 || aboutThis(g.At)) {
 								good = true
 							}
 							// or the value itself was tested against nil
